@@ -1,10 +1,12 @@
 import CfbVerif.Drv.Handle
 import CfbVerif.Drv.Names
 import CfbVerif.Drv.Time
+import CfbVerif.Drv.Api
 
 def main (args : List String) : IO UInt32 := do
   match args with
   | ["handle"] => CfbVerif.Drv.Handle.main; return 0
   | ["names"] => CfbVerif.Drv.Names.main; return 0
   | ["time"] => CfbVerif.Drv.Time.main; return 0
+  | ["api"] => CfbVerif.Drv.Api.main; return 0
   | _ => IO.eprintln "usage: driver <handle|...>"; return 2
